@@ -165,7 +165,7 @@ func c03Lazy(c *vlib.Ctx) {
 				lo := eo
 				lo.Lazy = true
 				var eager gopacket.Packet
-				if pi := vlib.Guard(func() { eager = gopacket.NewPacket(b, t, eo); eager.Layers() }); pi != nil {
+				if pi := vlib.Guard(func() { eager = c03New(b, t, eo); eager.Layers() }); pi != nil {
 					continue
 				}
 				det := func(prog []acc, step int) map[string]any {
@@ -177,7 +177,7 @@ func c03Lazy(c *vlib.Ctx) {
 					var lazy gopacket.Packet
 					bad := false
 					pi := vlib.Guard(func() {
-						lazy = gopacket.NewPacket(b, t, lo)
+						lazy = c03New(b, t, lo)
 						for si, a := range prog {
 							want := a.run(eager)
 							got := a.run(lazy)
@@ -251,7 +251,7 @@ func c03Prefix(c *vlib.Ctx, r *vlib.Rand, t gopacket.LayerType, b []byte) {
 	lo := eo
 	lo.Lazy = true
 	var eager gopacket.Packet
-	if pi := vlib.Guard(func() { eager = gopacket.NewPacket(b, t, eo); eager.Layers() }); pi != nil {
+	if pi := vlib.Guard(func() { eager = c03New(b, t, eo); eager.Layers() }); pi != nil {
 		return
 	}
 	var progs [][]acc
@@ -272,7 +272,7 @@ func c03Prefix(c *vlib.Ctx, r *vlib.Rand, t gopacket.LayerType, b []byte) {
 	for _, prog := range progs {
 		bad := false
 		pi := vlib.Guard(func() {
-			lazy := gopacket.NewPacket(b, t, lo)
+			lazy := c03New(b, t, lo)
 			for si, a := range prog {
 				want, got := a.run(eager), a.run(lazy)
 				if want != got {
@@ -302,4 +302,19 @@ func c03Prefix(c *vlib.Ctx, r *vlib.Rand, t gopacket.LayerType, b []byte) {
 		c.NonTrivial(vlib.Mix(uint64(t), vlib.HashBytes(b), 777))
 	}
 	c.Count("accessor_programs", len(progs))
+}
+
+// c03New makes the packet the way a caller with a reused read buffer does: without NoCopy the packet owns its bytes from
+// construction on, so the buffer it was made from is overwritten before the first accessor runs - for the eager and the
+// lazy packet alike. With NoCopy the caller keeps the buffer unchanged, as the option requires.
+func c03New(b []byte, t gopacket.LayerType, o gopacket.DecodeOptions) gopacket.Packet {
+	if o.NoCopy {
+		return gopacket.NewPacket(b, t, o)
+	}
+	tmp := append(make([]byte, 0, len(b)), b...)
+	p := gopacket.NewPacket(tmp, t, o)
+	for i := range tmp {
+		tmp[i] = ^tmp[i]
+	}
+	return p
 }
